@@ -9,6 +9,10 @@
 #include "opentelemetry/common/key_value_iterable_view.h"
 #include "opentelemetry/sdk/trace/sampler.h"
 #include "opentelemetry/sdk/trace/samplers/always_off.h"
+#include "opentelemetry/sdk/trace/samplers/always_off_factory.h"
+#include "opentelemetry/sdk/trace/samplers/always_on_factory.h"
+#include "opentelemetry/sdk/trace/samplers/parent_factory.h"
+#include "opentelemetry/sdk/trace/samplers/trace_id_ratio_factory.h"
 #include "opentelemetry/sdk/trace/samplers/always_on.h"
 #include "opentelemetry/sdk/trace/samplers/parent.h"
 #include "opentelemetry/sdk/trace/samplers/trace_id_ratio.h"
@@ -146,15 +150,25 @@ inline bool parse_sampler(const std::string &spec, std::shared_ptr<trace_sdk::Sa
   auto parts = split_on(spec, '/');
   auto leaf  = split_on(parts.back(), '=');
   std::shared_ptr<trace_sdk::Sampler> s;
-  if (leaf.size() == 1 && leaf[0] == "on") s = std::make_shared<trace_sdk::AlwaysOnSampler>();
-  else if (leaf.size() == 1 && leaf[0] == "off") s = std::make_shared<trace_sdk::AlwaysOffSampler>();
+  // every other spec (by a hash of its text, so that a case replays the same way) builds the built-in samplers through
+  // their factories - the way applications and the configuration code get them - instead of the constructors
+  unsigned h = 2166136261u;
+  for (char c : spec) h = (h ^ static_cast<unsigned char>(c)) * 16777619u;
+  const bool via_factory = (h >> 7) & 1;
+  if (leaf.size() == 1 && leaf[0] == "on")
+    s = via_factory ? std::shared_ptr<trace_sdk::Sampler>(trace_sdk::AlwaysOnSamplerFactory::Create())
+                    : std::make_shared<trace_sdk::AlwaysOnSampler>();
+  else if (leaf.size() == 1 && leaf[0] == "off")
+    s = via_factory ? std::shared_ptr<trace_sdk::Sampler>(trace_sdk::AlwaysOffSamplerFactory::Create())
+                    : std::make_shared<trace_sdk::AlwaysOffSampler>();
   else if (allow_byname && leaf.size() == 1 && leaf[0] == "byname") s = std::make_shared<ByNameSampler>();
   else if (leaf.size() == 2 && leaf[0] == "ratio")
   {
     double r;
     if (!parse_bits(leaf[1], r, nan)) return false;
     if (nan) return true;
-    s = std::make_shared<trace_sdk::TraceIdRatioBasedSampler>(r);
+    s = via_factory ? std::shared_ptr<trace_sdk::Sampler>(trace_sdk::TraceIdRatioBasedSamplerFactory::Create(r))
+                    : std::make_shared<trace_sdk::TraceIdRatioBasedSampler>(r);
   }
   else if (leaf.size() == 3 && leaf[0] == "custom")
   {
@@ -172,7 +186,8 @@ inline bool parse_sampler(const std::string &spec, std::shared_ptr<trace_sdk::Sa
   for (size_t i = parts.size() - 1; i-- > 0;)
   {
     if (parts[i] != "pb") return false;
-    s = std::make_shared<trace_sdk::ParentBasedSampler>(s);
+    s = via_factory ? std::shared_ptr<trace_sdk::Sampler>(trace_sdk::ParentBasedSamplerFactory::Create(s))
+                    : std::make_shared<trace_sdk::ParentBasedSampler>(s);
   }
   out = s;
   return true;
